@@ -137,8 +137,10 @@ PROPS = {
         "level": "random handler signatures of 0..4 readers of every kind (mandatory/optional, arrays of 1..4, text buffers of 0..30 bytes) that "
                  "succeed, fail silently or raise their own error, against parameter lists of 0..5 items of every data type (compatible, "
                  "missing, surplus, wrong type, suffixed, unknown suffix, unknown mnemonic) with random 488.2 white space around the commas, "
-                 "malformed fragments and trailing commas, in 1..3-unit messages with exact-fit and roomy input buffers",
-        "level_note": "delivered values are compared exactly except where the documentation leaves them open (real number to an integer/bool reader, negative to an unsigned reader); a suffixed number given to Bool/Choice accepts -104 or -138",
+                 "malformed fragments and trailing commas, in 1..3-unit messages with exact-fit and roomy input buffers, on an empty queue of 64 entries "
+                 "or (a fifth of the cases) a queue of 1..3 entries that is already full when the message arrives; return value of SCPI_Input for calls "
+                 "carrying several messages, incomplete tails and overruns",
+        "level_note": "delivered values are compared exactly except where the documentation leaves them open (real number to an integer/bool reader, negative to an unsigned reader); a suffixed number given to Bool/Choice accepts -104 or -138; a non-decimal number is never given to a Bool reader (left open)",
         "design_ref": "DESIGN.md section 4, C05",
         "runs": simple("c05", cfgs=("default", "noinfo", "heap")),
         "rule": "case = (signatures, message), distinct by hash; non-trivial = a unit with >= 2 parameters, or >= 1 expected error, or malformed data",
@@ -172,7 +174,8 @@ PROPS = {
     "C04": {
         "engine": "rapidcheck + enumeration",
         "technique": "grammar-based generation of 488.2 numeric literals with a structural oracle (expected value computed from the generator's own structure: correctly rounded strtod/strtof of the canonical text, exact integers, golden unit table)",
-        "level": "random decimal literals (1..25 digits, every sign/point/exponent/white-space placement, exponents up to +-400), in-range "
+        "level": "random decimal literals (1..25 digits, every sign/point/exponent/white-space placement, exponents up to +-400), literals constructed at the "
+                 "rounding boundaries of the target type (exact float/double midpoints, as written or moved off the tie up to 14 digits further on), in-range "
                  "integer literals for the four integer widths, #H/#Q/#B literals up to the type width, literals with every suffix of the "
                  "golden unit table in random case with 0..2 blanks, all special mnemonics and near misses, delivered as 'CMD <literal>' to "
                  "Int32/UInt32/Int64/UInt64/Float/Double/Number readers; values compared as bit patterns; plus the full unit table x case patterns",
